@@ -99,9 +99,12 @@ def run_segy(case, ctx):
     sources.annotate(case, S)
     mode = case["mode"]
     out = os.path.join(d, "o.sgz")
+    # (one case in five: the converter object has written another file first, with ANOTHER header detection)
+    em = case.get("earlier_mode")
     conv.segy_convert(S.path, out, bpv=case.get("bpv", 8), blockshape=None,
-                      reduce_iops=case.get("reduce", False), header_detection=mode)
-    labels = [mode, S.desc["geom"]]
+                      reduce_iops=case.get("reduce", False), header_detection=mode,
+                      earlier=[(os.path.join(d, "first.sgz"), 8, None)] if em else (), earlier_mode=em)
+    labels = [mode, S.desc["geom"]] + (["after-run-with:" + em] if em else [])
     if mode == "heuristic" and not S.heuristic_ok:
         # outside the statement's precondition: run, but do not assert field values
         return {"sig": None, "labels": labels + ["outside_precondition"]}
@@ -128,6 +131,8 @@ def segy_cases(draw):
         src["n_tr"] = draw(st.sampled_from([127, 128, 129, 256, 130]))
     c = {"src": src, "mode": mode, "reduce": draw(st.booleans()) if geom == "regular" else False,
          "bpv": draw(st.sampled_from([8, 4, 16]))}
+    if draw(st.integers(0, 4)) == 0:
+        c["earlier_mode"] = draw(st.sampled_from([m for m in ("heuristic", "thorough", "exhaustive", "strip") if m != mode]))
     if draw(st.integers(0, 3)) == 0:
         # an earlier conversion, in this process, of a survey of the same geometry whose free header fields are all
         # constant, stored under the same file name: what was learnt about its headers must not be applied here
